@@ -94,7 +94,7 @@ func check(c *pbt.Case, r *pbt.R) {
 		if errors.UnwrapOnce(M) != nil || errors.Unwrap(M) != nil || goErr.Unwrap(M) != nil {
 			r.Failf("Unwrap of a multi-cause error is not nil", "%T in %s", M, c.Spec)
 		}
-		if !gen.Identical(errors.UnwrapAll(M), M) && fmt.Sprintf("%T", M) != "gen.ULeafNC" {
+		if !ref.SameVal(errors.UnwrapAll(M), M) {
 			r.Failf("UnwrapAll does not stop at a multi-cause error", "%T in %s", M, c.Spec)
 		}
 		branches := errbase.UnwrapMulti(M)
@@ -102,7 +102,8 @@ func check(c *pbt.Case, r *pbt.R) {
 		if l.Spec.K == "join" || l.Spec.K == "gojoin" {
 			var texts []string
 			for i, x := range l.Spec.X {
-				if i >= len(branches) || !gen.Identical(branches[i], b.Of[x]) && fmt.Sprintf("%T", branches[i]) != "gen.ULeafNC" {
+				// (SameVal: == where defined, DeepEqual for values that cannot be compared)
+				if i >= len(branches) || !ref.SameVal(branches[i], b.Of[x]) {
 					r.Failf("Join does not keep its non-nil arguments in order", "branch %d of %s", i, c.Spec)
 				}
 				texts = append(texts, b.Of[x].Error())
